@@ -345,6 +345,11 @@ def near_boundary(seq, upto):
 def compare(ctx, seq, recs, outs):
     """model output lines vs implementation records; returns False at the first disagreement"""
     slack_now = seq[2]
+    # with slack > 0 the DRV/KOV terms contain (1 - exp(-eps)): numpy's exp (implementation) and libm's exp (Lean driver)
+    # may differ by an ulp, which the cancellation amplifies to ~1.1e-16/eps relative - allow for exactly that
+    eps_pos = [e for e, _ in seq[3] if 0 < e < math.inf] + [op[1] for op in seq[4] if op[0] in ("spend", "check")
+                                                             and isinstance(op[1], float) and 0 < op[1] < math.inf]
+    tol_s = 1e-12 + (4e-16 / min(eps_pos) if eps_pos else 0.0)
     for i, (rec, out) in enumerate(zip(recs, outs)):
         op, k, st, extra = rec[0], rec[1], rec[2], rec[3] if len(rec) > 3 else None
         w = out.split()
@@ -368,7 +373,7 @@ def compare(ctx, seq, recs, outs):
             if sl == 0:
                 ok = (me == te or (me != me and te != te)) and md == td
             else:
-                ok = gen.rel_close(me, te, 1e-12) and md == td
+                ok = gen.rel_close(me, te, tol_s) and md == td
         if ok and extra is not None and len(w) >= 7:
             re_, rd = b2f(int(w[5])), b2f(int(w[6]))
             if sl == 0:
@@ -394,7 +399,116 @@ FIXED_SEQS = [
 ]
 
 
+def mutable_number_probe(ctx):
+    """Numbers handed to the accountant as MUTABLE objects (0-d / one-element numpy arrays): whatever the accountant
+    accepts must be stored by value - a later in-place change of the caller's object (or of the objects inside the list
+    the accountant hands out) must alter neither the recorded spends, nor the slack, nor the ceilings, nor the total.
+    A refusal (TypeError at HEAD for spends and ceilings) must be a no-op.  Direct check of the property; the model is
+    not involved (for it a refused op is a no-op and an accepted number is a value)."""
+    r = ctx.fork("mutable-numbers")
+
+    def fsnap(acc):
+        t = acc.total()
+        return ([(float(e), float(d)) for e, d in acc.spent_budget], float(acc.slack), float(acc.epsilon),
+                float(acc.delta), float(t[0]), float(t[1]))
+
+    def mk(v, form):
+        return np.array(v) if form == "0d" else np.array([v])
+
+    def scribble(a, r_):
+        with np.errstate(all="ignore"):
+            how = r_.choice(["fill-small", "fill-big", "iadd", "zero"])
+            if how == "fill-small":
+                a.fill(1e-9)
+            elif how == "fill-big":
+                a.fill(0.9)
+            elif how == "iadd":
+                a += 0.75
+            else:
+                a.fill(0.0)
+        return how
+
+    for trial in range(ctx.budget(60, 600)):
+        ce = r.choice([1.0, 2.5, float("inf")])
+        cd = r.choice([0.5, 1.0, 0.25])
+        form = r.choice(["0d", "0d", "1elem"])
+        where = r.choice(["spend-eps", "spend-delta", "spend-both", "slack", "ceiling", "prior", "check"])
+        base = min(ce, 1.0)
+        objs = []
+        desc = f"BudgetAccountant({ce}, {cd})"
+        try:
+            if where == "ceiling":
+                oe, od = mk(ce, form), mk(cd, form)
+                objs = [oe, od]
+                acc = dp.BudgetAccountant(oe, od)
+                desc = f"BudgetAccountant(np.array({ce}), np.array({cd})) [{form}]"
+            elif where == "prior":
+                oe, od = mk(0.25 * base, form), mk(0.125 * cd, form)
+                objs = [oe, od]
+                acc = dp.BudgetAccountant(ce, cd, 0.0, spent_budget=[(oe, od), (0.125 * base, 0.0)])
+                desc += f" with spent_budget=[(array, array), …] [{form}]"
+            else:
+                acc = dp.BudgetAccountant(ce, cd)
+        except Exception:  # noqa - refused at construction: nothing to alias
+            ctx.case(("mutable", where, form, "ctor-refused"))
+            ctx.trace_ok()
+            continue
+        try:
+            acc.spend(0.25 * base, 0.0)
+        except Exception:  # noqa
+            pass
+        before = fsnap(acc)
+        accepted = True
+        try:
+            if where in ("spend-eps", "spend-both", "spend-delta", "check"):
+                oe = mk(0.25 * base, form) if where != "spend-delta" else 0.25 * base
+                od = mk(0.125 * cd, form) if where in ("spend-delta", "spend-both") else 0.0
+                objs = [o for o in (oe, od) if isinstance(o, np.ndarray)]
+                if where == "check":
+                    acc.check(oe, od)
+                else:
+                    acc.spend(oe, od)
+                desc += f".{'check' if where == 'check' else 'spend'}({'array' if isinstance(oe, np.ndarray) else oe}, " \
+                        f"{'array' if isinstance(od, np.ndarray) else od}) [{form}]"
+            elif where == "slack":
+                os_ = mk(0.2 * cd, form)
+                objs = [os_]
+                acc.slack = os_
+                desc += f".slack = np.array({0.2 * cd}) [{form}]"
+        except Exception:  # noqa
+            accepted = False
+        mid = fsnap(acc)
+        if not accepted and mid != before:
+            ctx.violation("C04:refused-not-noop", f"{desc}: refused, but the state changed from {before} to {mid}",
+                          {"kind": "mutable", "trial": trial})
+            continue
+        hows = [scribble(o, r) for o in objs]
+        # ... and the objects inside the list the accountant hands out
+        for e, d in acc.spent_budget:
+            for o in (e, d):
+                if isinstance(o, np.ndarray):
+                    hows.append("handed-out:" + scribble(o, r))
+        try:
+            after = fsnap(acc)
+        except Exception as e:  # noqa
+            ctx.violation("C04:mutable-number-aliased", f"{desc}: after the caller changed its own array in place "
+                          f"({hows}) total() raises {type(e).__name__}: {e}", {"kind": "mutable", "trial": trial})
+            continue
+        ctx.case(("mutable", where, form, "accepted" if accepted else "refused"))
+        if after != mid:
+            ctx.violation("C04:mutable-number-aliased",
+                          f"{desc}: accepted; the caller then changed its own array in place ({hows}) and the accountant's "
+                          f"state (spends, slack, ceiling eps, ceiling delta, total) went from {mid} to {after}",
+                          {"kind": "mutable", "trial": trial})
+        elif not (after[4] <= after[2] and after[5] <= after[3]):
+            ctx.violation("C04:over-ceiling", f"{desc}: total {after[4:]} exceeds ceiling {after[2:4]}",
+                          {"kind": "mutable", "trial": trial})
+        else:
+            ctx.trace_ok()
+
+
 def check(ctx):
+    mutable_number_probe(ctx)
     r = ctx.fork("seqs")
     n = ctx.budget(400, 6000)
     seqs = list(FIXED_SEQS) + [gen_sequence(r) for _ in range(n)]
@@ -434,6 +548,10 @@ def check(ctx):
 
 def replay(ctx, data):
     d = data["data"]
+    if d.get("kind") == "mutable":
+        n0 = len(ctx.violations)
+        mutable_number_probe(ctx)
+        return len(ctx.violations) > n0
     seq = d["seq"]
     from ..core import unjson_float as u
 
